@@ -16,10 +16,15 @@ __attribute__((used)) const char* __asan_default_options(void) { return "exitcod
 __attribute__((used)) const char* __ubsan_default_options(void) { return "exitcode=77:print_stacktrace=1"; }
 __attribute__((used)) const char* __tsan_default_options(void) { return "exitcode=77:halt_on_error=1:report_signal_unsafe=0:second_deadlock_stack=1"; }
 
-/* simulator infrastructure and harness code are not TSan-instrumented, but libc interceptors (memcpy, strcmp, snprintf...)
- * called from them still are: suppress reports whose stack passes through simulator/harness files. Races inside zstd
- * code (the only instrumented code) are unaffected. */
-__attribute__((used)) const char* __tsan_default_suppressions(void) { return "race:sim/core/\nrace:sim/sched/\nrace:sim/alloc/\nrace:sim/scenarios/\nrace:sim/io/\nrace:sim/main.c\nrace:verif/ref/\n"; }
+/* Simulator infrastructure and harness code are not TSan-instrumented, but the libc interceptors they call (memcpy,
+ * strcmp, snprintf...) are, and infrastructure bookkeeping is touched by every simulated thread (serialised by the
+ * baton, which TSan cannot see).  Suppress reports whose stack contains one of the infrastructure FUNCTIONS - those
+ * frames only occur when the access itself is inside the infrastructure.  Never suppress by file or by the thread
+ * trampoline: a suppression matches any frame of the stack, and every stack of zstd code starts in harness files. */
+__attribute__((used)) const char* __tsan_default_suppressions(void) {
+    return "race:^sim_\nrace:^bump$\nrace:^do_alloc$\nrace:^do_free$\nrace:^check_blk$\nrace:^wset_\nrace:^__wrap_\nrace:^ZSTD_verif_\n"
+           "race:^plan_\nrace:^rng_\nrace:^record$\nrace:^sess_wire_append$\nrace:^flush_quarantine$\n";
+}
 
 static void on_cpu_cap(int sig) {
     static const char m[] = "\nHANG cpu cap exceeded\n";
